@@ -4,7 +4,9 @@
 (* the real classes Dsc, Changes, BuildInfo, PdiffIndex, Release           *)
 (* (harness/props/c12.py) are checked against the actions of MultiValued.  *)
 (*                                                                         *)
-(* A trace is [cls, beh, events]; tokens are logged as [id, len] (id =     *)
+(* A trace is [cls, beh, behset, events] (beh: size_field_behavior of the  *)
+(* object at its creation, behset: assigned explicitly or the untouched    *)
+(* default); tokens are logged as [id, len] (id =                          *)
 (* identity of the text within the trace), lines of text as sequences of   *)
 (* cells [pad, id, len] (pad = white space before the token).  Events:     *)
 (*   build  f, form, recs          obj[field] = list of records            *)
@@ -21,6 +23,9 @@
 (*                                 = tok: the list is changed IN PLACE     *)
 (*   assign f, form, recs / delete f                                       *)
 (*                                 obj[f] = recs / del obj[f]              *)
+(*   setbeh v                      obj.size_field_behavior = v             *)
+(*   other c, v                    ANOTHER live object of class c was      *)
+(*                                 created / configured with v / dumped    *)
 (* A dump is always of the living object, a parse always of a fresh object *)
 (* made from the dumped text; mutations change the living object, and the  *)
 (* next dump must be explained by its CURRENT records.                     *)
@@ -53,7 +58,9 @@ TInit == /\ tid \in 1..Len(Traces)
          /\ l = 1
          /\ mode = [name |-> "trace", uniform |-> FALSE, maxf |-> 99, heavy |-> TRUE, emitmod |-> 1,
                     maxmut |-> 0, flimit |-> 99]
-         /\ cls = Traces[tid].cls /\ beh = Traces[tid].beh
+         /\ cls = Traces[tid].cls
+         /\ start = [beh |-> Traces[tid].beh, set |-> Traces[tid].behset, origin |-> "built"]
+         /\ opt = [beh |-> Traces[tid].beh, set |-> Traces[tid].behset, shared |-> Traces[tid].beh]
          /\ shape = NoShape
          /\ para = <<>> /\ phase = "build" /\ widths = <<>> /\ text = <<>> /\ parsed = <<>> /\ res = "ok"
          /\ nmut = 0 /\ hist = <<>> /\ cache = NoCache
@@ -66,7 +73,7 @@ Given(p, t) == /\ phase = "build" /\ para = <<>>
                /\ (\A f \in DOMAIN p : MEntryOK(Subs(f), p[f])) = TRUE
                /\ MExplains(Tables, cls, beh, p, t, FALSE) = TRUE
                /\ para' = p /\ text' = t /\ phase' = "dumped" /\ res' = "ok"
-               /\ UNCHANGED <<mode, cls, beh, shape, widths, parsed, nmut, hist, cache>>
+               /\ UNCHANGED <<mode, cls, start, opt, shape, widths, parsed, nmut, hist, cache>>
 
 TStep == /\ l <= Len(Tr.events)
          /\ LET e == Tr.events[l] IN
@@ -92,6 +99,10 @@ TStep == /\ l <= Len(Tr.events)
                  /\ Assign(e.f, [form |-> e.form, recs |-> e.recs])
               \/ /\ e.op = "delete"
                  /\ Delete(e.f)
+              \/ /\ e.op = "setbeh"
+                 /\ SetBeh(e.v)
+              \/ /\ e.op = "other"
+                 /\ OtherSet(e.c, e.v)
          /\ l' = l + 1 /\ UNCHANGED tid
          /\ (Diag => PrintT(<<"AT", tid, l>>))
          /\ (l' = Len(Tr.events) + 1 => PrintT(<<"ACCEPTED", tid>>))
